@@ -1,7 +1,9 @@
 // Cache-warming harness: forces cargo-kani to build every dependency once.
-#[kani::proof]
+include!("/verif/harness/vk_prelude.rs");
+vk_proof! {
 fn warm() {
     let a: i64 = kani::any();
     let v = crate::graph::PropertyValue::Integer(a);
     assert!(v.cmp(&v) == core::cmp::Ordering::Equal);
+}
 }
